@@ -1682,12 +1682,23 @@ impl ExternalSortExec {
                 let col_b = evaluate_expr(batch_b, &sort_expr.expr).ok();
 
                 if let (Some(a), Some(b)) = (col_a, col_b) {
-                    let cmp = compare_array_values(&a, row_a, &b, row_b);
-                    let cmp = if sort_expr.direction == crate::planner::SortDirection::Desc {
-                        cmp.reverse()
-                    } else {
-                        cmp
-                    };
+                    // Same SortOptions as `sort_batch` used to order each run,
+                    // so the merge agrees with the runs on direction, NULL
+                    // placement and every key type.
+                    let cmp = compare_array_values(
+                        &a,
+                        row_a,
+                        &b,
+                        row_b,
+                        arrow::compute::SortOptions {
+                            descending: sort_expr.direction
+                                == crate::planner::SortDirection::Desc,
+                            nulls_first: matches!(
+                                sort_expr.nulls,
+                                crate::planner::NullOrdering::NullsFirst
+                            ),
+                        },
+                    );
                     if cmp != Ordering::Equal {
                         return cmp;
                     }
@@ -2037,60 +2048,89 @@ fn merge_parquet_files(
     Ok(())
 }
 
-/// Compare two array values at given indices
+/// Compare two array values at given indices under the sort key's options
+/// (direction and NULL placement), exactly as `sort_batch`'s lexsort orders
+/// the rows inside a run.
 fn compare_array_values(
     a: &ArrayRef,
     row_a: usize,
     b: &ArrayRef,
     row_b: usize,
+    options: arrow::compute::SortOptions,
 ) -> std::cmp::Ordering {
     use std::cmp::Ordering;
 
-    // Handle nulls
+    // Handle nulls: placement is independent of the direction
     let a_null = a.is_null(row_a);
     let b_null = b.is_null(row_b);
 
     match (a_null, b_null) {
         (true, true) => return Ordering::Equal,
-        (true, false) => return Ordering::Greater, // nulls last
-        (false, true) => return Ordering::Less,
+        (true, false) => {
+            return if options.nulls_first {
+                Ordering::Less
+            } else {
+                Ordering::Greater
+            }
+        }
+        (false, true) => {
+            return if options.nulls_first {
+                Ordering::Greater
+            } else {
+                Ordering::Less
+            }
+        }
         (false, false) => {}
     }
 
-    // Compare based on type
+    let directed = |o: Ordering| if options.descending { o.reverse() } else { o };
+
+    // Fast paths for the common key types
     if let Some(arr_a) = a.as_any().downcast_ref::<Int64Array>() {
         if let Some(arr_b) = b.as_any().downcast_ref::<Int64Array>() {
-            return arr_a.value(row_a).cmp(&arr_b.value(row_b));
+            return directed(arr_a.value(row_a).cmp(&arr_b.value(row_b)));
         }
     }
 
     if let Some(arr_a) = a.as_any().downcast_ref::<arrow::array::Int32Array>() {
         if let Some(arr_b) = b.as_any().downcast_ref::<arrow::array::Int32Array>() {
-            return arr_a.value(row_a).cmp(&arr_b.value(row_b));
+            return directed(arr_a.value(row_a).cmp(&arr_b.value(row_b)));
         }
     }
 
     if let Some(arr_a) = a.as_any().downcast_ref::<Float64Array>() {
         if let Some(arr_b) = b.as_any().downcast_ref::<Float64Array>() {
-            let va = arr_a.value(row_a);
-            let vb = arr_b.value(row_b);
-            return va.partial_cmp(&vb).unwrap_or(Ordering::Equal);
+            // total order, like the arrow sort kernel that ordered the runs
+            return directed(arr_a.value(row_a).total_cmp(&arr_b.value(row_b)));
         }
     }
 
     if let Some(arr_a) = a.as_any().downcast_ref::<StringArray>() {
         if let Some(arr_b) = b.as_any().downcast_ref::<StringArray>() {
-            return arr_a.value(row_a).cmp(arr_b.value(row_b));
+            return directed(arr_a.value(row_a).cmp(arr_b.value(row_b)));
         }
     }
 
     if let Some(arr_a) = a.as_any().downcast_ref::<Date32Array>() {
         if let Some(arr_b) = b.as_any().downcast_ref::<Date32Array>() {
-            return arr_a.value(row_a).cmp(&arr_b.value(row_b));
+            return directed(arr_a.value(row_a).cmp(&arr_b.value(row_b)));
         }
     }
 
-    Ordering::Equal
+    // Every other key type (BOOLEAN, other integer widths, timestamps,
+    // decimals, …): arrow's comparator, which is what lexsort used for the
+    // runs. Values are non-null here, so only the direction matters.
+    match arrow::array::make_comparator(
+        a.as_ref(),
+        b.as_ref(),
+        arrow::compute::SortOptions {
+            descending: options.descending,
+            nulls_first: options.nulls_first,
+        },
+    ) {
+        Ok(cmp) => cmp(row_a, row_b),
+        Err(_) => Ordering::Equal,
+    }
 }
 
 /// Partition a batch by hash of key columns
